@@ -136,6 +136,32 @@ theorem C07_cycle_closing (n : Nat) (hn : 3 ≤ n) :
 
 example : ringTree Tables.searchTreeIfDfs 5 = [(0, 1), (1, 2), (2, 3), (3, 4)] := by decide +kernel
 
+/-- Ring closure for ANY ring: any residue keys, any root, any adjacency order.  List the ring from the
+root `v0` in the direction of the root's first neighbour: `v0, v1, …, vₗ` (distinct), the root's
+neighbours being `[v1, vₗ]` and every other residue having exactly its predecessor and successor on the
+ring as neighbours, in either order (`chainOk`).  Then the tree built for `dfs = True` is the path along
+the listing and `_initialize_cylces` restrains `(v0, vₗ)` — and `vₗ` is a ring neighbour of `v0`: the
+pair joined by the ring-closing edge.  Every ring size (induction over the listing). -/
+theorem C07_cycle_closing_general (nb : Nat → List Nat) (v0 v1 : Nat) (rest : List Nat) (fuel : Nat)
+    (hnd : (v0 :: v1 :: rest).Nodup)
+    (h0 : nb v0 = [v1, (v1 :: rest).getLast (List.cons_ne_nil _ _)])
+    (hok : chainOk nb v0 v0 (v1 :: rest)) (hf : 3 * (rest.length + 2) ≤ fuel) :
+    closingPair (searchTreeEdges Tables.searchTreeIfDfs nb fuel v0)
+        = some (v0, (v1 :: rest).getLast (List.cons_ne_nil _ _)) ∧
+      v0 ∈ nb ((v1 :: rest).getLast (List.cons_ne_nil _ _)) := by
+  have hk : Tables.searchTreeIfDfs = "dfs_tree" := by decide
+  rw [hk]
+  exact ⟨(cycle_dfs_tree nb v0 v1 rest fuel hnd h0 hok hf).2, chainOk_last nb v0 rest v0 v1 hok⟩
+
+-- a ring with keys 4, 2, 7, 1 (in ring order), rooted at 4, mixed adjacency orders
+example : let nb : Nat → List Nat := fun v => if v = 4 then [2, 1] else if v = 2 then [7, 4] else if v = 7 then [2, 1]
+      else if v = 1 then [4, 7] else []
+    (([4, 2, 7, 1] : List Nat).Nodup ∧ nb 4 = [2, ([2, 7, 1] : List Nat).getLast (List.cons_ne_nil _ _)] ∧
+      chainOk nb 4 4 [2, 7, 1]) ∧
+    searchTreeEdges Tables.searchTreeIfDfs nb 12 4 = [(4, 2), (2, 7), (7, 1)] := by
+  refine ⟨⟨by decide, by decide, ?_⟩, by decide⟩
+  simp [chainOk, okNbrs]
+
 -- the restraint `_initialize_cylces` puts on that pair (`d = 0`, tolerance `tol`) is an instance of
 -- `C07_distance_window`: the window stored on residue `n-1` is `[-tol, tol + avg]` (here n = 5)
 example : setDistanceRestraint (ringTree Tables.searchTreeIfDfs 5) [] 4 0 0 1 (3 / 10)
@@ -149,6 +175,16 @@ defect fixed in e644c23; the reverse patch turns `Tables.searchTreeIfDfs` into "
 theorem C07_cycle_bfs_counterexample :
     closingPair (ringTree "bfs_tree" 6) = some (0, 3) ∧ ¬ ringAdjacent 6 0 3 := by
   decide
+
+/-- What the square-free predicates used above mean over the reals: `distLe s r` is `√s ≤ r`,
+`distGe s r` is `r ≤ √s`, and `cosGe d c m` is `c·√m ≤ d` — with `s = ‖p − c‖²`, `d = n·step`,
+`c = cos|angle|`, `m = ‖n‖²‖step‖²` these are the inequalities of the property statement. -/
+theorem C07_real_reading (s r d c m : Rat) (hm : 0 ≤ m) :
+    (distLe s r ↔ Real.sqrt (s : ℝ) ≤ (r : ℝ)) ∧ (distGe s r ↔ (r : ℝ) ≤ Real.sqrt (s : ℝ)) ∧
+    (cosGe d c m ↔ (c : ℝ) * Real.sqrt (m : ℝ) ≤ (d : ℝ)) :=
+  ⟨distLe_iff_sqrt s r, distGe_iff_sqrt s r, cosGe_iff_sqrt d c m hm⟩
+
+example : distLe 25 5 ∧ distGe 25 5 ∧ cosGe 1 (1 / 2) 4 := by decide +kernel
 
 /-- Sampled end-to-end distances: every candidate of `np.arange(avg, contour, avg)` is a positive
 multiple `k·avg` of the average step with `avg ≤ k·avg < contour`; the sample is drawn from these. -/
